@@ -9,5 +9,5 @@ Extraction "c17model.ml" Z.add Z.mul Z.sub Z.div Z.modulo Z.eqb Z.ltb Z.leb Z.of
   form_of form_tojson form_fromjson form_wf
   f_purelist_depth f_minmax_depth f_branch_depth f_purelist_isregular f_keys f_numfields
   c_purelist_depth c_minmax_depth c_branch_depth c_purelist_isregular c_keys c_numfields np_ok
-  type_of_form type_tostring erase item_types type_parse printable dtype_to_name
+  type_of_form type_tostring erase item_types type_parse printable dtype_to_name t_string t_bytes t_char t_byte
   has_typeb leaf_depth_in minmax_ty.
